@@ -97,3 +97,17 @@ def valid_random_state(rng, **kw):
             return s
     s.grid[s.agent.position] = Floor()
     return s
+
+
+def alias_equal(s):
+    """the same layout with ONE instance per distinct object description: every group of cells (and
+    the held item) whose objects print alike shares a single Python object.  Values are unchanged;
+    the library's behaviour must not depend on object identity."""
+    from harness.codec import enc_obj
+
+    pool = {}
+    rows = s.grid.objects
+    for i, row in enumerate(rows):
+        for j, o in enumerate(row):
+            rows[i][j] = pool.setdefault(enc_obj(o), o)
+    return s
